@@ -165,6 +165,7 @@ struct CliWorld : World {
                 int64_t flags = (int64_t)r.below(8) | (r.chance(1, 10) ? 8 : 0);
                 std::vector<int64_t> a = {nm, pw, flags, (int64_t)r.below(4), (int64_t)(r.chance(1, 10) && faulty ? 1 + r.below(2) : 0)};
                 gen_fault(r, a, faulty, false);
+                a.push_back((int64_t)r.chance(1, 4)); // arg 13: an older, longer file already sits at the output name
                 Op o; o.name = "enc"; o.a = a; pl.ops.push_back(o);
                 encrypted.push_back({nm, pw});
             } else if (c < 60 && !encrypted.empty()) {
@@ -173,6 +174,7 @@ struct CliWorld : World {
                 int64_t flags = (int64_t)r.below(8) | (r.chance(1, 10) ? 8 : 0);
                 std::vector<int64_t> a = {e.first, pw, flags, (int64_t)r.below(4), 0};
                 gen_fault(r, a, faulty, true);
+                a.push_back((int64_t)r.chance(1, 4)); // arg 13: an older, longer file already sits at the output name
                 Op o; o.name = "dec"; o.a = a; pl.ops.push_back(o);
             } else if (c < 72 && !encrypted.empty()) {
                 auto e = encrypted[r.below(encrypted.size())];
@@ -439,12 +441,19 @@ struct CliWorld : World {
         if (use_stdio) { args.push_back("-"); stdin_file = vfs_find(in.c_str()); }
         else args.push_back(in);
         if (!use_stdio) { vfs_remove(out.c_str()); c.meta.erase(out); }
+        Bytes stale;
+        if (!use_stdio && op.arg(13) != 0) { // the output name is taken by an older file that is longer than anything this run will write
+            Bytes old = bytes_of(plain.size() + 200 + (size_t)(op.u(3) % 97), 0x01dF11e ^ op.u(0));
+            if (old.size() <= VFS_MAXDATA) { vfs_put(out.c_str(), old.data(), old.size()); stale = old; c.run->fault("fs.output_name_taken_by_longer_file"); }
+        }
         std::set<std::string> names_before = vfs_names();
         Result r = run_tool(c, 0, args, &op, 5, stdin_file, (int)op.arg(4));
         c.run->fold_u64((uint64_t)r.exit_code);
         if (!use_stdio && !with_o) { std::string o2 = discover_output(names_before, out); if (o2 != out) { c.run->probe("enc.output_under_another_name"); out = o2; } }
         bool out_exists = use_stdio ? false : vfs_exists(out);
         Bytes produced = use_stdio ? Bytes(r.out.begin(), r.out.end()) : vfs_get(out, &ex);
+        // an older file that this run never touched is not an output of this run
+        if (!stale.empty() && out_exists && produced == stale) { out_exists = false; produced.clear(); vfs_remove(out.c_str()); c.run->probe("enc.older_file_untouched"); }
         std::string site = std::string("asconcrypt.encrypt") + (use_stdio ? ".stdio" : "");
         bool rng_failed = r.rng_failed; // the script names a call (every / the 2nd); the verdict follows what was delivered
         c.run->state(fmt("enc/%d/%d/%d/%d/%d", (int)(flags & 15), r.exit_code != 0, (int)r.hard, (int)r.crashed, (int)transient_fired(r)));
@@ -518,12 +527,18 @@ struct CliWorld : World {
         Bytes saved_out;
         bool had_out = false;
         if (!use_stdio) { saved_out = vfs_get(out, &had_out); vfs_remove(out.c_str()); }
+        Bytes stale;
+        if (!use_stdio && op.arg(13) != 0) {
+            Bytes old = bytes_of(cur.size() + 200 + (size_t)(op.u(3) % 97), 0x01dF11e ^ op.u(0));
+            if (old.size() <= VFS_MAXDATA) { vfs_put(out.c_str(), old.data(), old.size()); stale = old; c.run->fault("fs.output_name_taken_by_longer_file"); }
+        }
         std::set<std::string> names_before = vfs_names();
         Result r = run_tool(c, 0, args, &op, 5, stdin_file, 0);
         c.run->fold_u64((uint64_t)r.exit_code);
         if (!use_stdio && !with_o) { std::string o2 = discover_output(names_before, out); if (o2 != out) { c.run->probe("dec.output_under_another_name"); out = o2; } }
         bool out_exists = use_stdio ? false : vfs_exists(out);
         Bytes produced = use_stdio ? Bytes(r.out.begin(), r.out.end()) : vfs_get(out, &ex);
+        if (!stale.empty() && out_exists && produced == stale) { out_exists = false; produced.clear(); vfs_remove(out.c_str()); c.run->probe("dec.older_file_untouched"); }
         std::string site = std::string("asconcrypt.decrypt") + (use_stdio ? ".stdio" : "");
         bool right_pw = authentic && pw == mi->second.pw;
         c.run->state(fmt("dec/%d/%d/%d/%d/%d/%d", (int)(flags & 15), (int)authentic, (int)right_pw, r.exit_code != 0, (int)r.hard, (int)transient_fired(r)));
